@@ -12,8 +12,11 @@ import (
 	"fmt"
 	"os"
 	"runtime"
+	"sync/atomic"
 
 	"github.com/coregx/coregex"
+	"github.com/coregx/coregex/meta"
+	"github.com/coregx/coregex/verifhook"
 
 	"verif/harness/internal/core"
 )
@@ -40,6 +43,7 @@ func runHistory(args []string) {
 	_ = fs.String("props", "C13", "")
 	report := fs.String("report", "report.json", "")
 	fails := fs.String("fail", "fail.ndjson", "")
+	corpusRun := fs.Bool("corpus", false, "also run the cache-churning corpus histories")
 	fs.Parse(args)
 	f, err := os.Open(*in)
 	if err != nil {
@@ -120,6 +124,9 @@ func runHistory(args []string) {
 			rep.Sample(map[string]any{"pattern": pat, "history_calls": 4 * len(rec.Hs), "apis": len(histAPIs)})
 		}
 	})
+	if *corpusRun {
+		runCorpusHistories(rep)
+	}
 	if err != nil {
 		rep.Machinery(err.Error())
 	}
@@ -128,5 +135,66 @@ func runHistory(args []string) {
 	}
 	if err != nil {
 		fatal(err)
+	}
+}
+
+// runCorpusHistories: cache-churning histories (see the comments inside).
+func runCorpusHistories(rep *core.Report) {
+	// Cache-churning histories: patterns with large DFAs under configurations with tiny state budgets, a fixed pseudo-random
+	// corpus, one aged value per (pattern, configuration); every answer must equal a fresh value's (and the default configuration's).
+	hays := corpus(400, 60, "abc")
+	for _, pat := range dfaPatterns {
+		for _, st := range []uint32{1, 2, 10, 10000} {
+			cfg := meta.DefaultConfig()
+			cfg.MaxDFAStates = st
+			aged, err := coregex.CompileWithConfig(pat, cfg)
+			if err != nil {
+				continue
+			}
+			for hi, h := range hays {
+				a := histAPIs[hi%len(histAPIs)]
+				got := a.fn(aged, h)
+				fresh, _ := coregex.CompileWithConfig(pat, cfg)
+				want := a.fn(fresh, h)
+				if got != want {
+					rep.Fail(&core.Failure{Prop: "C13", API: a.name, Mode: "first", Pattern: pat, Hay: core.Hex(h), Cfg: fmt.Sprintf("MaxDFAStates=%d", st),
+						Args: fmt.Sprintf("after %d earlier calls on the corpus", hi), Want: "fresh value: " + want, Got: "aged value: " + got, Fam: "CORPUS"})
+				}
+			}
+			rep.Add(1, len(hays), 2*len(hays), len(hays), "")
+		}
+	}
+	// the default 2 MiB cache is only ever filled by automata with tens of thousands of states: long random inputs
+	var clears, fulls atomic.Int64
+	verifhook.Install(func(kind string, a []int) {
+		switch kind {
+		case "dfa.clear":
+			clears.Add(1)
+		case "dfa.full":
+			fulls.Add(1)
+		}
+	})
+	defer func() {
+		verifhook.Install(nil)
+		rep.Extra["corpus_cache_clears_observed"] = clears.Load()
+		rep.Extra["corpus_cache_full_events"] = fulls.Load()
+	}()
+	big := corpus(24, 30000, "ab")
+	for _, pat := range []string{`[ab]*a[ab]{14}c`, `(a|b)*a(a|b){13}b`, `[ab]*b[ab]{15}`} {
+		aged, err := coregex.Compile(pat)
+		if err != nil {
+			continue
+		}
+		for hi, h := range big {
+			a := histAPIs[hi%3]
+			got := a.fn(aged, h)
+			fresh, _ := coregex.Compile(pat)
+			want := a.fn(fresh, h)
+			if got != want {
+				rep.Fail(&core.Failure{Prop: "C13", API: a.name, Mode: "first", Pattern: pat, Hay: core.Hex(h[:32]), Cfg: fmt.Sprintf("len=%d", len(h)),
+					Args: fmt.Sprintf("after %d earlier calls on long random inputs (cache clears)", hi), Want: "fresh value: " + want, Got: "aged value: " + got, Fam: "CORPUS"})
+			}
+		}
+		rep.Add(1, len(big), 2*len(big), len(big), "")
 	}
 }
